@@ -1386,6 +1386,12 @@ class OptionStore:
                 options[key] = valstr
 
         # merge everything that has been computed above, while giving self.augments priority
+        # (the augments as they are now: what the buildtype expansion adds below must not
+        # shadow a debug / optimization value given explicitly, whatever the textual order)
+        prior_augments = self.augments.copy()
+        bt_key = OptionKey('buildtype').evolve(subproject=subproject)
+        if bt_key in options:
+            options = {bt_key: options[bt_key], **options}
         for key, valstr in options.items():
             if key.subproject != subproject:
                 if key.subproject in self.subprojects and not self.option_has_value(key, valstr):
@@ -1398,7 +1404,7 @@ class OptionStore:
 
             self.pending_subproject_options.pop(key, None)
             self.pending_options.pop(key, None)
-            if key not in self.augments:
+            if key not in prior_augments:
                 self.set_user_option(key, valstr, True)
 
         self.subprojects.add(subproject)
